@@ -71,6 +71,9 @@ def check(ctx, tree, leaves0, dsl, cfg):  # noqa: C901, PLR0912, PLR0915
         re_ = outcome_of(lambda i=i: spec.entry(i))
         if -n <= i < n:
             ok = (rc[0] == 'ok' and rc[1] == children[i] and hash(rc[1]) == hash(children[i])
+                  and repr(rc[1]) == repr(children[i]) and rc[1].namespace == children[i].namespace
+                  and rc[1].none_is_leaf == children[i].none_is_leaf and rc[1].accessors() == children[i].accessors()
+                  and optree.treespec_child(spec, i) == rc[1]
                   and re_[0] == 'ok' and type(re_[1]) is type(entries[i]) and re_[1] == entries[i]
                   and rc[1].paths() == children[i].paths())
         else:
